@@ -491,6 +491,48 @@ def commit_obligations(pid, tier, seed):
     return {'obligations': obs, 'bounds': bounds}
 
 
+# ---------------------------------------------------------------------------
+# C05: eviction
+
+def evict_obligations(pid, tier, seed):
+    obs = []
+    t = 300 if tier == 'quick' else 1800
+    sh, bounds = tree_shapes(tier, seed, quick_extra=(3, 1))
+    for impl in ('c', 'py'):
+        for kind, tag, tpl, hist, L, I in sh:
+            m = shapes.n_ranks(tpl)
+            is_set = kind == 'TreeSet'
+            for g in ('read', 'write', 'del', 'range', 'bad'):
+                if tier == 'quick' and m > 4 and (tag != 'core' or g in ('read', 'range', 'bad') or is_set):
+                    continue
+                nops = {'read': 6 if is_set else 8, 'write': 3, 'del': 3 if is_set else 4, 'range': 5, 'bad': 8}[g]
+                base = '%s/%s/%s/%s%s/%s/%s' % (pid, impl, kind, tag, '' if (L, I) == (2, 2) else '%d%d' % (L, I), sid(tpl), g)
+                P = dict(family='OO', impl=impl, kind=kind, tpl=tpl, L=L, I=I, group=g, prov='loaded')
+                args = [('x', 'int'), ('op', 'int'), ('ghost', 'bool'), ('e', 'int')]
+                if g == 'range' and (tier != 'quick' or m <= 2):
+                    args.insert(1, ('y', 'int'))
+                pre = ['0 <= op < %d' % nops, '1 <= e <= 40']
+                obs.append(dict(id=base, mod='h_txn', fn='evict_step', nk=m, args=args, pre=pre, params=P, timeout=t))
+        for kind in ('Bucket', 'Set'):
+            is_set = kind == 'Set'
+            for n in (0, 1, 3):
+                for g in ('read', 'write', 'del', 'range', 'bad'):
+                    nops = {'read': 6 if is_set else 8, 'write': 3, 'del': 3 if is_set else 4, 'range': 5, 'bad': 8}[g]
+                    P = dict(family='OO', impl=impl, kind=kind, n=n, group=g)
+                    obs.append(dict(id='%s/%s/%s/n%d/%s' % (pid, impl, kind, n, g), mod='h_txn', fn='evict_step', nk=n,
+                                    args=[('x', 'int'), ('op', 'int'), ('ghost', 'bool'), ('e', 'int')],
+                                    pre=['0 <= op < %d' % nops, '1 <= e <= 40'], params=P, timeout=t))
+    for fam in ('II',):
+        for kind in ('Bucket', 'Set', 'BTree', 'TreeSet'):
+            for n in (0, 1, 5):
+                obs.append(dict(id='%s/native/%s/%s/n%d' % (pid, fam, kind, n), mod='h_txn', fn='evict_native', nk=0,
+                                args=[('op', 'int'), ('b', 'int'), ('ghost', 'bool')], pre=['0 <= op < 10', '0 <= b < 7'],
+                                params=dict(family=fam, kind=kind, n=n), timeout=t))
+    bounds.update(per_condition_timeout_s=t, eviction_point='the e-th key comparison of the operation sweeps the whole cache (e solver-chosen, '
+                  '1..40; beyond the last comparison = no sweep inside); before the operation all nodes are ghosts or all active (solver-chosen)')
+    return {'obligations': obs, 'bounds': bounds}
+
+
 COMMON_ASSUME = [
     'key objects are observed by the containers only through rich comparison, identity and None-ness '
     '(true for the object-key templates; native-key families are covered by their own obligations where stated)',
@@ -648,5 +690,21 @@ PROPS = {
                    '_Tree._set/_del/_grow/_split (_p_changed), Bucket._set/_del, __getstate__/__setstate__'],
         assumptions=COMMON_ASSUME + ['harness/minidb.py models the data-manager contract of persistent/ZODB (trusted; ZODB itself is '
                                      'not installed): optimistic commit of registered + newly reachable objects, invalidation on abort'],
+    ),
+    'C05': dict(
+        families=['OO', 'II'],
+        gen=lambda tier, seed: evict_obligations('C05', tier, seed),
+        explanation='Each catalogue shape with symbolic keys is stored in the mini object database; all its nodes are ghosts or all '
+                    'active (solver-chosen); one public call (lookups, writes, deletes, range searches, minKey/maxKey, and calls that '
+                    'fail because of an unusable key or bound; selector and key solver-chosen) runs while the e-th key comparison '
+                    'inside it (e solver-chosen: which comparison, or none) sweeps the whole object cache (PickleCache.minimize: '
+                    'everything not pinned and not modified becomes a ghost). Asserted: immediately after the call no node of the '
+                    'cache is in the sticky state; result, exception class and contents equal the un-cached model; after evicting '
+                    'everything again the tree reads the same; after commit a fresh reader sees the same.',
+        functions=['_OOBTree.so: PER_USE/PER_UNUSE/PER_ALLOW_DEACTIVATION bracketing in _BTree_get, _BTree_set, BTree_findRangeEnd, '
+                   'BTree_rangeSearch, BTree_maxminKey, _bucket_get/_bucket_set, Bucket_maxminKey, BTreeItems_seek, PreviousBucket, '
+                   'BTree_length_or_nonzero, BTree__p_deactivate, bucket__p_deactivate, _BTree_clear, _bucket_clear', 'BTrees._base (no pinning; '
+                   'relies on persistent reloading)'],
+        assumptions=COMMON_ASSUME + ['harness/minidb.py + persistent.PickleCache stand for the object cache of a ZODB connection'],
     ),
 }
